@@ -239,7 +239,7 @@ def _ob_tag2d(p0: int, p1: int, e0: int, e1: int, has_ext: bool, excl: bool, n0:
 # 3. MultiTag: row selection, 1-d and 2-d positions   PART = (positions rank, kind)
 # ---------------------------------------------------------------------------
 def _ob_mtag(row: int, pa: int, pb: int, ea: int, eb: int, has_ext: bool, excl: bool, n: int,
-             si: int, off: int, t0: int, d1: int, d2: int) -> bool:
+             si: int, off: int, t0: int, d1: int, d2: int, intpos: bool = False) -> bool:
     """
     pre: -LIM <= pa <= LIM and -LIM <= pb <= LIM and 0 <= ea <= LIM and 0 <= eb <= LIM
     pre: -LIM <= off <= LIM and 0 <= si < 7
@@ -259,11 +259,17 @@ def _ob_mtag(row: int, pa: int, pb: int, ea: int, eb: int, has_ext: bool, excl: 
     _mk_dim(ref, kind, par, None)
     prow = [Q(pa, 16), Q(pb, 16)]
     erow = [Q(ea, 16), Q(eb, 16)]
+    ptype = nixio.DataType.Double
+    if intpos:
+        # positions stored with an INTEGER element type (whole coordinates), extents stay fractional
+        assume(-32 <= pa <= 32 and -32 <= pb <= 32)
+        prow = [pa, pb]                     # whole coordinates; in lattice units they are 16 * pa, 16 * pb
+        ptype = nixio.DataType.Int64
     if prank == 1:
-        pos = blk.create_data_array("pos", "t", dtype=nixio.DataType.Double, data=prow)
+        pos = blk.create_data_array("pos", "t", dtype=ptype, data=prow)
         ext = blk.create_data_array("ext", "t", dtype=nixio.DataType.Double, data=erow) if has_ext else None
     else:
-        pos = blk.create_data_array("pos", "t", dtype=nixio.DataType.Double, data=[[prow[0]], [prow[1]]])
+        pos = blk.create_data_array("pos", "t", dtype=ptype, data=[[prow[0]], [prow[1]]])
         ext = blk.create_data_array("ext", "t", dtype=nixio.DataType.Double,
                                     data=[[erow[0]], [erow[1]]]) if has_ext else None
     mt = blk.create_multi_tag("mt", "t", positions=pos, extents=ext)
@@ -277,6 +283,8 @@ def _ob_mtag(row: int, pa: int, pb: int, ea: int, eb: int, has_ext: bool, excl: 
     if row >= 2:
         return False
     p = (pa, pb)[row]
+    if intpos:
+        p = 16 * p
     e = (ea, eb)[row] if has_ext else 0
     r = _region_indices(kind, par, p, p + e, excl and has_ext and e > 0)
     if r is None or r[1] >= n:
@@ -594,8 +602,13 @@ _T2_THOROUGH = [("set", "sample", 1, _fx(si=3, has_ext=h)) for h in (False, True
                [("sample", "set", 1, _fx(si=k, **e)) for k in (0, 3, 6) for e in _EXT] + \
                [(a, b, 2, _fx(si=3, p1=p, e1=16, **e)) for a in ("set", "range") for b in ("set", "range")
                 for p in (0, 24) for e in _EXT]
-_MT_QUICK = [(r, "range", _fx(si=3, row=w)) for r in (1, 2) for w in (0, 1, 2)]
-_MT_THOROUGH = _MT_QUICK + [(r, "sample", _fx(si=k, row=w, **e)) for r in (1, 2) for k in (0, 3, 6)
+_MT_INT = [(1, "sample", _fx(si=3, row=0, intpos=True, has_ext=True)),
+           (2, "sample", _fx(si=2, row=1, intpos=True, has_ext=True)),
+           (1, "range", _fx(si=3, row=0, intpos=True))]
+# (the integer-position partitions _MT_INT do not come back within the budget - 'unknown' after 900 s - and
+#  are therefore NOT part of any tier: positions stored with an integer element type are outside the claim)
+_MT_QUICK = [(r, "range", _fx(si=3, row=w, intpos=False)) for r in (1, 2) for w in (0, 1, 2)]
+_MT_THOROUGH = _MT_QUICK + [(r, "sample", _fx(si=k, row=w, intpos=False, **e)) for r in (1, 2) for k in (0, 3, 6)
                             for w in (0, 1, 2) for e in _EXT]
 _F_QUICK = [("tag", "tagged", _fx(si=3, excl=x)) for x in (False, True)] + \
            [(w, t, _fx(si=3)) for w in ("tag", "mtag") for t in ("indexed", "untagged")]
@@ -620,7 +633,9 @@ OBLIGATIONS = [
     Ob("multi_tag_rows", _ob_mtag, timeout=900,
        partition_by_tier={"quick": _MT_QUICK, "thorough": _MT_THOROUGH},
        functions=[_M + "tagged_data", _M + "_calc_data_slices_mtag", _T + "BaseTag._calc_data_slices"],
-       replay=lambda a: _real("_ob_mtag", a)),
+       replay=lambda a: _real("_ob_mtag", a),
+       outside="positions / extents arrays of an INTEGER element type (the partitions exist but the solver does "
+               "not finish them within the budget; seed C08-r4s1 lives there and is NOT caught)"),
     Ob("unit_change_between_retrievals", _ob_unit_history, timeout=900,
        partition=[0, 1, 2], functions=[_T + "Tag.tagged_data", _T + "BaseTag._scale_position"],
        replay=lambda a: _real("_ob_unit_history", a),
